@@ -373,7 +373,7 @@ def run(ctx):
     if not rc.ok or gcov.get("Append1", [0, 0])[1] == 0:
         ctx.machinery("WikiTokens: action Append1 (Extend) never taken on the coverage configuration")
     cov["WikiTokens.Append1"] = gcov["Append1"]
-    gens = [("full", 2)] + ([] if quick else [("structural", 3)])
+    gens = [("full", 2), ("extbody", 1)] + ([] if quick else [("structural", 3)])
     sims = [(150, 10), (150, 30), (100, 60)] if quick else [(2000, 10), (2000, 30), (1000, 60)]
     cases = []             # (atoms, net, peak, group)
     sizes = {}
